@@ -17,6 +17,7 @@ BATCHES = {
         ("version", 8, 100, {}),
         ("fault", 8, 100, {}),
         ("poor", 8, 100, {}),
+        ("sidauth", 8, 100, {}),
         # the same drivers through the real ABCI boundary (signed DeliverTx, EndBlock/Commit/BeginBlock of every module in
         # app.go's order): module wiring, ante handler and baseapp rollback are part of what is observed
         ("pay", 2, 40, {"_abci": True}),
@@ -32,6 +33,7 @@ BATCHES = {
         ("version", 80, 160, {}),
         ("fault", 80, 160, {}),
         ("poor", 80, 160, {}),
+        ("sidauth", 80, 160, {}),
         ("pay", 12, 80, {"_abci": True}),
         ("life", 12, 80, {"_abci": True}),
         ("scarce", 8, 80, {"_abci": True}),
@@ -194,6 +196,7 @@ def model_check_pay(binary, workdir, tier):
 
 MC_FAMILIES = {  # cfg file, (quick depth, thorough depth)
     "timeout": ("MC_Timeout.cfg", (6, 9)), "did": ("MC_Did.cfg", (6, 8)), "super": ("MC_Super.cfg", (5, 7)), "reward": ("MC_Reward.cfg", (6, 7)), "auth": ("MC_Auth.cfg", (6, 7)),
+    "sidauth": ("MC_SidAuth.cfg", (7, 10)),
 }
 MC_FAMILY_CFG = {"accounts": 8, "dids": 2, "validators": 2, "balance": 10000000, "blockReward": 840}
 
@@ -205,6 +208,8 @@ def model_check_families(binary, workdir, tier):
         d = os.path.join(workdir, fam)
         stage_spec(d)
         gcfg = MC_CFG if fam == "timeout" else MC_FAMILY_CFG   # the timeout family jumps over long spans: no block reward there
+        if fam == "sidauth":
+            gcfg = dict(MC_FAMILY_CFG, accounts=12)           # a09..a11 create and are bound to the sid DIDs
         rc, o, _ = run([binary, "genesis", "--cfg", json.dumps(gcfg), "--out", os.path.join(d, "genesis.json")])
         if rc != 0:
             raise MachineryError("genesis failed: " + o[-1000:])
@@ -495,8 +500,10 @@ def run_property(pid, tier, seed, use_cache=True):
             "samples": (rep["schedules"][:4] if pid != "C18" else rep["c18"][:4]) or [{"note": "no schedule"}],
             "model": mc, "schedules_run": len(rep["schedules"]), "schedules_agreeing": sum(1 for x in rep["schedules"] if x["agree"]),
             "export_points": rep["c18"], "wall_s": rep["wall_s"],
+            "random_streams": rep.get("streams", []), "blocks_compared": rep.get("blocks_compared", 0),
             "explanation": "Replicas.tla model-checked (implemented design: Agreement holds; hazard design: violated as witness); "
-                           "TLC-generated schedules executed on two real ABCI replicas (new process per restart) and compared hash by hash",
+                           "TLC-generated schedules executed on two real ABCI replicas (new process per restart) and compared hash by hash; "
+                           "random_streams: driver-made block streams on three replicas (plain / with non-consensus Simulate+CheckTx noise / with restarts)",
         }
         return {"coverage": cov, "violations": viol, "level": "model_checking", "engine_wall_s": rep.get("wall_s", 0),
                 "assumptions": ["replica B differs from A only by the schedule's non-consensus calls, restarts and lateness",
